@@ -63,13 +63,15 @@ def local_helpers(core, f, depth=2):
     return out
 
 
-def trace_to_root(core, g, operand, root, _depth=0, _helpers=None):
+def trace_to_root(core, g, operand, root, _depth=0, _helpers=None, _suffix=None):
     """origins of `operand` of body g expressed in the enclosing function `root`: closure captures are followed up into the parent,
     parameters of a crate-local helper are followed into the argument at its call site(s)"""
     if _helpers is None:
         _helpers = local_helpers(core, root)
     out = []
-    for o in origins(g, operand):
+    todo = list(origins(g, operand, _suffix=list(_suffix) if _suffix else None))
+    while todo:
+        o = todo.pop(0)
         if g.path == root.path or _depth >= 8:
             out.append((g, o))
             continue
@@ -87,10 +89,9 @@ def trace_to_root(core, g, operand, root, _depth=0, _helpers=None):
                     rv = s['rv']
                     if rv['k'] == 'agg' and rv.get('def') == g.path and name in (rv.get('fields') or []):
                         found = True
-                        for h, x in trace_to_root(core, parent, rv['ops'][rv['fields'].index(name)], root, _depth + 1, _helpers):
-                            x2 = Origin(x.kind, **{k: v for k, v in x.__dict__.items() if k != 'kind'})
-                            x2.suffix = list(x.suffix or []) + list(o.suffix[1:])
-                            out.append((h, x2))
+                        for h, x in trace_to_root(core, parent, rv['ops'][rv['fields'].index(name)], root, _depth + 1, _helpers,
+                                                  _suffix=list(o.suffix[1:])):
+                            out.append((h, x))
             if not found:
                 out.append((g, o))
         elif g.kind != 'Closure' and o.kind == 'arg':
@@ -99,10 +100,8 @@ def trace_to_root(core, g, operand, root, _depth=0, _helpers=None):
                 out.append((g, o))
             for caller, bb, t in sites:
                 if o.n - 1 < len(t['args']):
-                    for h, x in trace_to_root(core, caller, t['args'][o.n - 1], root, _depth + 1, _helpers):
-                        x2 = Origin(x.kind, **{k: v for k, v in x.__dict__.items() if k != 'kind'})
-                        x2.suffix = list(x.suffix or []) + list(o.suffix or [])
-                        out.append((h, x2))
+                    for h, x in trace_to_root(core, caller, t['args'][o.n - 1], root, _depth + 1, _helpers, _suffix=list(o.suffix or [])):
+                        out.append((h, x))
         else:
             out.append((g, o))
     return out
